@@ -28,6 +28,8 @@ try:
         rel = os.path.relpath(os.path.join(wt, pkg), os.path.join(wt, mod))
         return run(["go", "test", "-count=1", "-vet=off", "-run", meta.get("demo_run", "."), "./" + rel], os.path.join(wt, mod), 900)
     rc, o = run(["git", "apply", os.path.join(d, "patch.diff")], wt)
+    if rc != 0:
+        rc, o = run(["patch", "-p1", "-F3", "-s", "--no-backup-if-mismatch", "-i", os.path.join(d, "patch.diff")], wt)
     res["applies"] = rc == 0
     if rc != 0:
         res["apply_out"] = o
